@@ -299,6 +299,8 @@ pub fn stress(a: &Args) {
             ops += k;
             js.push(std::thread::spawn(move || {
                 ROLE.with(|r| r.set(role));
+                // really parallel: racing setters and readers on distinct CPUs, released together
+                crate::queue::pin_to(role);
                 st.wait();
                 for i in 0..k {
                     let op = ["set", "get", "get", "is_set"][prng.random_range(0..4)];
